@@ -502,6 +502,17 @@ class ConstantScoreWrapperMatcher(WrappingMatcher):
     def _replacement(self, newchild):
         return self.__class__(newchild, score=self._score)
 
+    def replace(self, minquality=0):
+        if minquality and self._score < minquality:
+            # No posting of this matcher can reach the threshold
+            return mcore.NullMatcher()
+        # The wrapped matcher's own scores are irrelevant, so it must not be
+        # pruned against the threshold
+        r = self.child.replace()
+        if r is not self.child:
+            return self._replacement(r)
+        return self
+
     def max_quality(self):
         return self._score
 
